@@ -337,11 +337,12 @@ class StmtMixin:
         # 2. discover the modified set by fixpoint, then the real run
         mod_locals, mod_heap = set(), set()
         uid0 = Path._uid[0]
-        self._loop_locs = {}
+        cur_locs = {}
+        prev_locs_now = None
         for attempt in range(6):
             saved_obls = len(self.obls)
             head = p.fork()
-            self.havoc_for_loop(head, mod_locals, mod_heap, fc, self._loop_locs)
+            self.havoc_for_loop(head, mod_locals, mod_heap, fc, cur_locs)
             head_env = dict(head.env)
             head_heap = dict(head.heap)
             self.assume_invariants(spec, head, fc, ordn, is_for)
@@ -414,9 +415,9 @@ class StmtMixin:
                         if name.startswith('f:'):
                             self._collect_locs(name, arr, head_heap[name], uid0, locs_found)
             locs_now = {k: (None if v is None else sorted(v)) for k, v in locs_found.items()}
-            locs_prev = {k: (None if v is None else sorted(v)) for k, v in self._loop_locs_keys.items()} if hasattr(self, '_loop_locs_keys') and attempt > 0 else None
-            self._loop_locs = {k: (None if v is None else [t for (_, t) in sorted(v.items())]) for k, v in locs_found.items()}
-            self._loop_locs_keys = locs_found
+            locs_prev = prev_locs_now
+            prev_locs_now = locs_now
+            cur_locs = {k: (None if v is None else [t for (_, t) in sorted(v.items())]) for k, v in locs_found.items()}
             if new_l == mod_locals and new_h == mod_heap and (locs_prev == locs_now):
                 # 3. back edges: invariant preserved, variant decreases
                 for q in back:
@@ -430,6 +431,8 @@ class StmtMixin:
                     self.loop_ghost(spec, spec.exit_ghost, q, fc, ordn, is_for, lname + '/exit')
                 res.extend((NEXT, q, None) for q in exits)
                 return res
+            if __import__('os').environ.get('PYVC_DEBUG'):
+                print('loop', lname, 'attempt', attempt, sorted(new_l), sorted(new_h), locs_now)
             mod_locals, mod_heap = new_l, new_h
             del self.obls[saved_obls:]
         raise Unsupported('loop modified-set did not converge in %s' % fc.qname)
